@@ -155,10 +155,10 @@ def hygiene():
     return hits
 
 
-def overlay_json():
+def overlay_json(exclude=()):
     rep = {}
     for fn in sorted(os.listdir(HARNESS)):
-        if not fn.endswith(".go"):
+        if not fn.endswith(".go") or fn in exclude:
             continue
         src = os.path.join(HARNESS, fn)
         m = re.match(r"export_([a-z0-9]+(?:__[a-z0-9]+)*)\.go$", fn)
@@ -174,11 +174,30 @@ def overlay_json():
     return p
 
 
+HARNESS_EXCLUDED = []   # harness files left out of the last build because they no longer compile against /repo
+
+
 def build_harness():
-    ov = overlay_json()
-    rc, out = sh(["go", "build", "-tags", "verif", "-overlay", ov, "-o", os.path.join(BUILD, "verifharness"),
-                  "./cmd/verifharness"], cwd=REPO, env=GOENV)
-    if rc != 0:
+    """Build the harness into /repo's module by overlay.  When a harness file no longer compiles against the current
+    source (an internal function it calls was renamed or removed), the build is retried without that file — its
+    operations are then missing and the caller reports the broken tie — so that the remaining operations can still
+    search for a failing input."""
+    del HARNESS_EXCLUDED[:]
+    exclude = set()
+    out = ""
+    for _ in range(8):
+        ov = overlay_json(exclude)
+        rc, out = sh(["go", "build", "-tags", "verif", "-overlay", ov, "-o", os.path.join(BUILD, "verifharness"),
+                      "./cmd/verifharness"], cwd=REPO, env=GOENV)
+        if rc == 0:
+            break
+        bad = set(re.findall(r"/verif/harness/([A-Za-z0-9_]+\.go):\d+", out)) - exclude
+        bad = {b for b in bad if b not in ("main.go", "info.go", "child.go", "samples.go", "cli.go")}
+        if not bad:
+            return False, out
+        exclude |= bad
+        HARNESS_EXCLUDED.append((sorted(bad), out.strip()[-300:]))
+    else:
         return False, out
     rc, out2 = sh(["go", "build", "-o", os.path.join(BUILD, "decipher"), "./cmd/decipher"], cwd=REPO, env=GOENV)
     if rc != 0:
@@ -343,6 +362,8 @@ def main(prop, tier, seed, replay):
             hok, hout = build_harness()
             if not hok:
                 broken.append("harness build (go build -overlay) failed: " + hout.strip()[-400:])
+            for files, why in HARNESS_EXCLUDED:
+                broken.append("harness file(s) " + ", ".join(files) + " no longer compile against the source and were left out: " + why)
         rows = []
         t_impl = t_model = 0.0
         if hok and dok:
